@@ -16,6 +16,7 @@ import os
 import vlib
 import pressure
 import c01_gen
+import c01_bal
 
 FINISH = dict(level="proof",
               rule="synthetic cases: random port models (1-6 ports, multi-character names, string and list port collections, "
@@ -309,6 +310,7 @@ def run(ctx):
     ctx.ensure_static()
     ctx.compile_theorems("Props/C01.v")
     c01_gen.run(ctx)      # T: average_port_pressure / get_throughput_sum regenerated from the source = the hand model (PropsGen/C01gen.v)
+    c01_bal.run(ctx)      # T: assign_optimal_throughput (the balancer) regenerated from the source = the hand model (PropsGen/C01bal.v)
     num_prelude_shard(ctx)
     co = corpus_cases(ctx)
     if co:
